@@ -227,19 +227,20 @@ theorem C07_retry_clean_roots (H : HashAlg α) (hinj : H.Inj) (n : Nat) (ops1 op
     error value) —, and the rollback flag is set before the first statement and cleared only after `Commit`. -/
 theorem C07_code_facts :
     Gen.SyncFacts.errHandledLocally_bridgeProcessor =
-      ["GetBridgesPaged#5", "GetClaimsPaged#5", "GetLegacyTokenMigrations#4", "fetchTokenMappings#3", "rollbackTransaction#1"] ∧
-    Gen.SyncFacts.errHandledLocally_l1infoProcessor = ["GetLatestInfoUntilBlock#2", "ProcessBlock#2", "Reorg#2"] ∧
+      ["GetBridgesPaged:rows.Close", "GetClaimsPaged:rows.Close", "GetLegacyTokenMigrations:rows.Close", "fetchTokenMappings:rows.Close",
+       "rollbackTransaction:tx.Rollback"] ∧
+    Gen.SyncFacts.errHandledLocally_l1infoProcessor = ["GetLatestInfoUntilBlock:tx.Rollback", "ProcessBlock:tx.Rollback", "Reorg:tx.Rollback"] ∧
     Gen.SyncFacts.errHandledLocally_l1infoVerifyBatches = [] ∧
     Gen.SyncFacts.errHandledLocally_l1infoInitial = [] ∧
-    Gen.SyncFacts.errHandledLocally_gerProcessor = ["ProcessBlock#2"] ∧
-    Gen.SyncFacts.errHandledLocally_treeCore = ["getSiblings#1"] ∧
+    Gen.SyncFacts.errHandledLocally_gerProcessor = ["ProcessBlock:tx.Rollback"] ∧
+    Gen.SyncFacts.errHandledLocally_treeCore = ["getSiblings:t.getRHTNode"] ∧
     Gen.SyncFacts.errHandledLocally_treeAppendOnly = [] ∧
-    Gen.SyncFacts.errHandledLocally_treeUpdatable = ["UpsertLeaf#1"] ∧
-    Gen.SyncFacts.rollbackGuard_bridge = "shouldRollback" ∧ Gen.SyncFacts.rollbackGuard_l1info = "shouldRollback" ∧
-    Gen.SyncFacts.rollbackGuard_ger = "shouldRollback" ∧
-    Gen.SyncFacts.rollbackFlagFlow_bridge = ["shouldRollback := true", "Commit", "shouldRollback = false"] ∧
-    Gen.SyncFacts.rollbackFlagFlow_l1info = ["shouldRollback := true", "Commit", "shouldRollback = false"] ∧
-    Gen.SyncFacts.rollbackFlagFlow_ger = ["shouldRollback := true", "Commit", "shouldRollback = false"] := by decide
+    Gen.SyncFacts.errHandledLocally_treeUpdatable = ["UpsertLeaf:t.getLastRootWithTx"] ∧
+    Gen.SyncFacts.rollbackGuard_bridge = "FLAG" ∧ Gen.SyncFacts.rollbackGuard_l1info = "FLAG" ∧
+    Gen.SyncFacts.rollbackGuard_ger = "FLAG" ∧
+    Gen.SyncFacts.rollbackFlagFlow_bridge = ["FLAG := true", "Commit", "FLAG = false"] ∧
+    Gen.SyncFacts.rollbackFlagFlow_l1info = ["FLAG := true", "Commit", "FLAG = false"] ∧
+    Gen.SyncFacts.rollbackFlagFlow_ger = ["FLAG := true", "Commit", "FLAG = false"] := by decide
 
 end Aggkit.C07
 
